@@ -554,7 +554,8 @@ def run_case_c14(case):
     for v in violations:
         v["sig"]["steps"] = [s["step"] for s in case["steps"]]
     sample = {"kind": kind, "hash_method": hash_method, "directory": bool(directory), "pool": [q["why"] for q in pool],
-              "steps": [(s["step"], s.get("q"), s.get("via"), s.get("cfg")) for s in case["steps"]]}
+              "steps": [(s["step"], s.get("q"), s.get("via"), s.get("cfg")) for s in case["steps"]],
+              "interesting": restarts >= 2 and bool(directory)}
     return {"violations": violations, "digest": log.digest(), "counters": dict(counters), "faults": dict(faults),
             "states": list(states), "sim_seconds": clk.now, "nontrivial": stored_once, "sample": sample}
 
